@@ -217,6 +217,25 @@ impl TrainerConfig {
     }
 }
 
+#[cfg(vibrato_verif)]
+impl TrainerConfig {
+    /// Verification hook: parses `rewrite.def` and applies each of the three rule sets
+    /// (unigram, left, right) to every given feature list.
+    /// Also returns the number of trie nodes of each rule set.
+    #[allow(clippy::type_complexity)]
+    pub fn verif_rewrite(
+        rewrite_def: &[u8],
+        feature_lists: &[Vec<String>],
+    ) -> Result<(Vec<[Option<Vec<String>>; 3]>, [usize; 3])> {
+        let (u, l, r) = Self::parse_rewrite_config(rewrite_def)?;
+        let mut out = vec![];
+        for fs in feature_lists {
+            out.push([u.rewrite(fs), l.rewrite(fs), r.rewrite(fs)]);
+        }
+        Ok((out, [u.verif_num_nodes(), l.verif_num_nodes(), r.verif_num_nodes()]))
+    }
+}
+
 #[cfg(test)]
 mod tests {
     use super::*;
